@@ -624,13 +624,31 @@ func (e *Engine) havocLoop(fr *Frame, st *State, hdr *ssa.BasicBlock, c *Contrac
 	if all {
 		e.havocAllHeap(st)
 	} else {
+		allowed, allowAll := e.frameAllowed(fr, st, c, ord)
 		var ks []string
 		for k := range keys {
 			ks = append(ks, k)
 		}
 		sort.Strings(ks)
 		for _, k := range ks {
-			e.heapHavoc(st, k)
+			if allowAll || allowed[k] || strings.HasPrefix(k, "G|") || !strings.HasPrefix(e.heapSort(k), "(Array Int ") {
+				e.heapHavoc(st, k)
+				continue
+			}
+			// Not in `modifies`: objects that existed at function entry keep their content (the loop-frame obligation
+			// at the back edge proves it); only objects allocated by this function are havocked.  No quantifier needed.
+			cur := e.heapGet(st, st.heap, k)
+			_, vs := arraySorts(e.heapSort(k))
+			t := cur
+			for _, a := range st.allocs {
+				t = sto(t, a, st.fresh("lh", vs))
+			}
+			e.heapSet(st, k, t)
+			for fk := range st.facts {
+				if strings.HasPrefix(fk, k+"@") {
+					delete(st.facts, fk)
+				}
+			}
 		}
 	}
 	var gs []string
@@ -798,6 +816,42 @@ func (e *Engine) frameCheck(st *State, fr *Frame, ctx *EvalCtx, ct *Contract, pa
 // loopFrame is the implicit frame invariant of every loop: objects that existed when the function was
 // entered (references >= 0) and globals are not modified by the loop unless the function's `modifies`
 // names their heap kind.  Assumed after the loop havoc (assume=true), asserted at the back edge.
+// frameAllowed: heap keys the function's `modifies` (or loopmodifies) allows a loop to change on pre-existing objects.
+func (e *Engine) frameAllowed(fr *Frame, st *State, c *Contract, ord int) (map[string]bool, bool) {
+	allowed := map[string]bool{}
+	all := false
+	if c != nil {
+		vars := map[string]*Val{}
+		for _, p := range fr.fn.Params {
+			vars[p.Name()] = fr.env[p]
+		}
+		ctx := &EvalCtx{e: e, st: st, old: st.entry, inOld: true, vars: vars, c: c, pkg: fr.fn.Package(), fr: fr}
+		if mt, err := e.resolveMods(ctx, c.Modifies); err == nil {
+			all = mt.all
+			for _, k := range mt.keys {
+				allowed[k] = true
+			}
+			for _, p := range mt.cells {
+				ks := map[string]bool{}
+				if p.Addr != nil {
+					ks[p.Addr.Key] = true
+				} else {
+					e.allocKeys(p.Typ.Underlying().(*types.Pointer).Elem(), ks)
+				}
+				for k := range ks {
+					allowed[k] = true
+				}
+			}
+		}
+		for _, m := range c.ModLoop[ord] {
+			if strings.HasPrefix(m, "key:") {
+				allowed[m[4:]] = true
+			}
+		}
+	}
+	return allowed, all
+}
+
 func (e *Engine) loopFrame(fr *Frame, st *State, c *Contract, ord int, pre map[string]string, assume bool) {
 	if assume {
 		if fr.loopPre == nil {
@@ -870,7 +924,8 @@ func (e *Engine) loopFrame(fr *Frame, st *State, c *Contract, ord int, pre map[s
 			f = "(forall ((" + r + " Int)) (=> (>= " + r + " 0) (= (select " + now + " " + r + ") (select " + was + " " + r + "))))"
 		}
 		if assume {
-			st.assume(f)
+			// nothing to assume: havocLoop left pre-existing objects untouched for this key
+			_ = f
 		} else {
 			e.addObligation(st, fr, "invariant-preserved", []string{"frame"}, fmt.Sprintf("loop#%d frame: heap %s unchanged for objects that existed at function entry", ord, k), fr.fn.String(), f, nil)
 		}
